@@ -648,7 +648,20 @@ impl Family for C14 {
         let elems = gen_elems(rng, n, true);
         let m = elems.len();
         if (index / 4) % 2 == 0 {
-            let kind = [RdKind::B16, RdKind::B32, RdKind::B64, RdKind::U64][((index / 8) % 4) as usize];
+            let kind = [RdKind::B8, RdKind::B16, RdKind::B32, RdKind::B64, RdKind::U64][((index / 8) % 5) as usize];
+            let mut elems = elems;
+            if kind == RdKind::B8 {
+                // u8 readers cannot serve the decoding tables (recorded known finding)
+                for el in elems.iter_mut() {
+                    if let Elem::Code { code, rtab, .. } = el {
+                        let mut t = *rtab % code.n_rtabs();
+                        while !code.rtables(t).is_empty() {
+                            t = (t + 1) % code.n_rtabs();
+                        }
+                        *rtab = t;
+                    }
+                }
+            }
             S14 {
                 e,
                 wrap,
@@ -738,6 +751,8 @@ impl Family for C14 {
                     };
                 }
                 match (s.e, kind) {
+                    (En::BE, RdKind::B8) => buf!(BE, u8),
+                    (En::LE, RdKind::B8) => buf!(LE, u8),
                     (En::BE, RdKind::B16) => buf!(BE, u16),
                     (En::BE, RdKind::B32) => buf!(BE, u32),
                     (En::BE, RdKind::B64) => buf!(BE, u64),
